@@ -479,8 +479,34 @@ Local Open Scope string_scope.
 """
 
 
+def parse_assumptions_multiline(out):
+    """vlib.parse_assumptions stops at the first axiom whose type is printed on the following lines
+    (e.g. ClassicalDedekindReals.sig_forall_dec); this version keeps every axiom name of every block."""
+    import re
+    blocks = []; cur = None
+    for line in out.split('\n'):
+        if line.startswith('Closed under the global context'):
+            if cur is not None:
+                blocks.append(cur)
+            blocks.append([]); cur = None
+        elif line.startswith('Axioms:'):
+            if cur is not None:
+                blocks.append(cur)
+            cur = []
+        elif cur is not None:
+            m = re.match(r'^([A-Za-z_][A-Za-z0-9_.\']*)\s*(:.*)?$', line)
+            if m:
+                cur.append(m.group(1))
+            elif line and not line.startswith(' '):
+                blocks.append(cur); cur = None
+    if cur is not None:
+        blocks.append(cur)
+    return blocks
+
+
 # ----------------------------------------------------------------------------- run
 def run(ctx):
+    vlib.parse_assumptions = parse_assumptions_multiline
     import time as _t; _t0 = _t.time()
     def lap(what):
         if os.environ.get('C20_TIMING'):
